@@ -24,6 +24,8 @@ type handlerResult struct {
 	val  resp.Value
 	f    float64
 	typ  int
+	// bulkPad pads a bulk reply to a decimal boundary length
+	bulkPad string
 }
 
 // cachedArray is rebuilt for every run (see runC04): executors that walk a handler's array move its read cursor.
@@ -44,6 +46,18 @@ func drawHandlerResult(t *sim.Tape) handlerResult {
 	switch h.kind {
 	case 3:
 		h.val = genValue(t, 1, false)
+	case 9:
+		if t.Draw(4, "decpad") == 3 {
+			k := []int{1, 2, 3, 3, 4, 4, 5, 5, 6}[t.Draw(9, "deck")]
+			l := 1
+			for i := 0; i < k; i++ {
+				l *= 10
+			}
+			l += t.Draw(3, "decd") - 1
+			if l > len(h.text) {
+				h.bulkPad = strings.Repeat("y", l-len(h.text))
+			}
+		}
 	case 10:
 		h.typ = t.Draw(4, "htype")
 	case 6:
@@ -70,8 +84,8 @@ func (h handlerResult) apply(c *wl.Call) (*redis.Message, error, bool) {
 		return redis.NewStringMessage(h.text), errors.New(h.text), true
 	case 8: // error message built by the constructor
 		return redis.NewErrorMessage(errors.New(h.text)), nil, true
-	case 9: // bulk with hostile bytes
-		return redis.NewBulkMessage(h.text), nil, true
+	case 9: // bulk with hostile bytes; some padded to a length of 10^k, 10^k-1 or 10^k+1 (where the length prefix gains a digit)
+		return redis.NewBulkMessage(h.bulkPad + h.text), nil, true
 	case 11: // one array message object kept by the handler and returned again and again (a caching store)
 		return cachedArray, nil, true
 	case 10: // message of any line/bulk type whose payload the handler set itself (exported proto API)
